@@ -1,18 +1,8 @@
 //! Scratch experiments (not registered for any property).
 use crate::bytesearch::*;
-inst!(exp_f_avx2_33, [props=C99 tier=quick cfg=x86std t=1800 uw=find_raw.0:2;find_raw.1:4;byte_by_byte:17], 17,
-    x86::find_fixed::<33, 64>(1, 1, false, 32));
-inst!(exp_f_avx2_70, [props=C99 tier=quick cfg=x86std t=1800 uw=find_raw.0:2;find_raw.1:4;byte_by_byte:17], 17,
-    x86::find_fixed::<70, 101>(1, 3, false, 32));
-inst!(exp_f_avx2_160, [props=C99 tier=quick cfg=x86std t=1800 uw=find_raw.0:3;find_raw.1:5;byte_by_byte:17], 17,
-    x86::find_fixed::<160, 191>(1, 1, false, 32));
-inst!(exp_f_sse2_40, [props=C99 tier=quick cfg=x86std t=1800 uw=find_raw.0:2;find_raw.1:4;byte_by_byte:17], 17,
-    x86::find_fixed::<40, 55>(0, 3, false, 16));
-inst!(exp_f_sse2_15, [props=C99 tier=quick cfg=x86std t=1800 uw=find_raw.0:2;find_raw.1:4;byte_by_byte:17], 17,
-    x86::find_fixed::<15, 30>(0, 3, true, 16));
-inst!(exp_f_sse2_80, [props=C99 tier=quick cfg=x86std t=1800 uw=find_raw.0:2;find_raw.1:5;byte_by_byte:17], 17,
-    x86::find_fixed::<80, 95>(0, 1, true, 16));
-inst!(exp_f_sse2_count_40, [props=C99 tier=quick cfg=x86std t=1800 uw=count_raw.0:2;count_raw.1:4;byte_by_byte:17], 42,
-    x86::count_fixed::<40, 55>(0, 16));
-inst!(exp_f_avx2_count_70, [props=C99 tier=quick cfg=x86std t=1800 uw=count_raw.0:2;count_raw.1:4;byte_by_byte:33], 72,
-    x86::count_fixed::<70, 101>(1, 32));
+inst!(exp_avx2_one_28_36, [props=C99 tier=quick cfg=x86std t=1800 uw=find_raw.0:2;find_raw.1:3;byte_by_byte:2], 3,
+    x86::find::<67>(1, 1, false, 28, 36, 32));
+inst!(exp_avx2_three_28_36, [props=C99 tier=quick cfg=x86std t=1800 uw=find_raw.0:2;find_raw.1:3;byte_by_byte:2], 3,
+    x86::find::<67>(1, 3, true, 28, 36, 32));
+inst!(exp_sse2_one_lowunwind, [props=C99 tier=quick cfg=x86std t=1800 uw=find_raw.0:2;find_raw.1:4;byte_by_byte:17], 3,
+    x86::find::<55>(0, 1, false, 0, 40, 16));
